@@ -149,9 +149,44 @@ impl Property for C01 {
     const ID: &'static str = "C01";
 
     fn strategy(_tier: Tier) -> BoxedStrategy<Case> {
-        (pair_strategy(), xf_strategy(), any::<u64>())
-            .prop_map(|(Pair { a, b }, xf, vsel)| Case { a, b, xf, vsel, trusted: true })
-            .boxed()
+        let general = (pair_strategy(), xf_strategy(), any::<u64>()).prop_map(|(Pair { a, b }, xf, vsel)| Case { a, b, xf, vsel, trusted: true });
+        // thin wedges at large magnitude (1 case in 16): two edges leaving a shared vertex in nearly - or exactly - the same
+        // direction, with coordinates around 2^26..2^28 so that products of coordinate differences exceed 2^53 (a plain f64 cross
+        // product cannot order the edge ends around the node; the exact oracle works on the integers). Only D4 symmetries are
+        // applied: scalings and translations would not stay exact in f64 at this magnitude.
+        let big = || (1i64 << 26)..(1i64 << 28);
+        // P = t (u,v) + e and P' = (t+m) (u,v) + e: cross(P, P') = -m cross((u,v), e) is tiny although both vectors are huge
+        let wedge = (((1i64 << 26)..(1i64 << 27), (-3i64..4, -3i64..4), (-2i64..3, -2i64..3), -3i64..4), (-3i64..4, -3i64..4), (big(), big()), 0u8..2, prop_oneof![Just(0u8), Just(1u8), Just(3u8)], 0u8..8, any::<u64>()).prop_filter_map(
+            "degenerate wedge",
+            |((t, uv, e, m), o, (sx, sy), ka, kb, d4, vsel)| {
+                if uv == (0, 0) {
+                    return None;
+                }
+                let pv = (t * uv.0 + e.0, t * uv.1 + e.1);
+                let pw = ((t + m) * uv.0 + e.0, (t + m) * uv.1 + e.1);
+                // a third direction, roughly perpendicular, and its opposite
+                let side = (-pv.1 / 2 + sx % 1024, pv.0 / 2 + sy % 1024);
+                let at = |v: (i64, i64)| (o.0 + v.0, o.1 + v.1);
+                let org = at((0, 0));
+                let a = match ka {
+                    0 => G::Line(org, at(pv)),
+                    1 => G::LineString(vec![at(side), org, at(pv)]),
+                    2 => G::Triangle(org, at(pv), at(side)),
+                    _ => G::Polygon(crate::refgeom::Poly::new(vec![org, at(pv), at((pv.0 + side.0, pv.1 + side.1)), at(side), org], vec![])),
+                };
+                let b = match kb {
+                    0 => G::Line(org, at(pw)),
+                    1 => G::LineString(vec![at((-side.0, -side.1)), org, at(pw)]),
+                    2 => G::Triangle(org, at(pw), at((-side.0, -side.1))),
+                    _ => G::Line(at(pw), org),
+                };
+                if !(in_relate_domain(&a) && in_relate_domain(&b)) {
+                    return None;
+                }
+                Some(Case { a, b, xf: Xf { d4, k: 0, tx: 0, ty: 0 }, vsel, trusted: true })
+            },
+        );
+        prop_oneof![15 => general.boxed(), 1 => wedge.boxed()].boxed()
     }
 
     fn quota(tier: Tier) -> u64 {
@@ -189,6 +224,7 @@ impl Property for C01 {
             "bbox:disjoint",
             "bbox:nested",
             "empty-operand",
+            "thin-wedge-at-2^26..2^28",
         ]
     }
 
@@ -206,6 +242,9 @@ impl Property for C01 {
         obs.label(format!("tp:{ta}/{tb}"));
         coincidence_labels(&c.a, &c.b, &info, obs);
         obs.label(c.xf.label());
+        if c.a.coords().iter().chain(c.b.coords().iter()).any(|q| q.0.abs() >= 1 << 25 || q.1.abs() >= 1 << 25) {
+            obs.label("thin-wedge-at-2^26..2^28");
+        }
         if bbox_class(&c.a, &c.b) != "bbox:disjoint" && info.touching {
             obs.nontrivial();
         }
